@@ -106,12 +106,27 @@ def run(ctx: Ctx):
                 "2..7 seed peaks (diagonals of individual label pairs +-0/300/800 bp) on generated references "
                 "(25..60 labels, optional tandem repeats) and noisy / stretched / indel-containing queries, both "
                 "strands, maxDistance in {500,1500,3000}, several score parameter vectors; resolved by the real "
-                "AlignmentSegmentConflictResolver; judged by TLC (Trace_Resolver). non-trivial = distinct list whose "
+                "AlignmentSegmentConflictResolver; plus lattice inputs that TLC's random walks of MC_AlignCore drove into "
+                "rare resolver situations (Guided_AlignCore.cfg); judged by TLC (Trace_Resolver). non-trivial = distinct list whose "
                 "real chain has >= 2 members that share or cross labels before resolution (a conflict exists)")
     ctx.assumptions = ["chain order is taken from the real chainer (logged choice); C14 decides the chainer",
                        "integer bp coordinates; scores scaled to integers (dp in {0.5,1,2})"]
     n = 8000 if quick else 150000
     records = gen.parallel(segment_lists, ctx.seed * 6007 + 15, n, chunk=250)
+    # model-guided lists: lattice inputs that TLC's random walks of MC_AlignCore (larger constants) drove into the
+    # resolver situations random inputs rarely reach; their segments are built and resolved by the real code as well
+    from lib import alignlib
+    guided = batch.export_by_print("MC_AlignCore", "Guided_AlignCore.cfg", ctx.workdir, workers=8,
+                                   simulate="num=%d" % (1500 if quick else 40000), depth=200,
+                                   extra=["-seed", str(ctx.seed + 15)], timeout=1800)
+    n_guided = 0
+    for inp in guided:
+        rec = run_real({"ref": inp["ref"], "qry": inp["qry"], "qlen": inp["qlen"], "peaks": inp["peaks"],
+                        "rev": inp["rev"], "params": alignlib.params_of(inp["par"])})
+        if rec is not None:
+            records.append(rec)
+            n_guided += 1
+    ctx.notes["model_guided_lists"] = n_guided
     for rec in records:
         ch = [c for c in rec["chain"] if rec["ins"][c - 1]["pos"]]
         if len(ch) >= 2:
